@@ -118,6 +118,11 @@ def parse_harness_file(path):
         if m:
             attrs["stubs"].append(m.group(1).strip() + " -> " + m.group(2).strip())
             continue
+        if re.match(r"fn\s+\$\w+\s*\(", s):
+            # the proof function of a macro_rules! family body: its attributes belong to the family
+            in_proof = False
+            attrs = {"unwind": None, "stubs": []}
+            continue
         m = re.match(r"(?:pub(?:\([a-z]+\))?\s+)?fn\s+(\w+)\s*\(", s)
         if m and in_proof:
             h = Harness()
@@ -349,16 +354,25 @@ def group_rss_kb(pgid):
     return total
 
 
+ACTIVE = {}          # pid -> start time of the solver runs of this driver process
+ACTIVE_LOCK = threading.Lock()
+LOW_MEM_GB = float(os.environ.get("VERIF_LOW_MEM_GB", "3.0"))
+
+
 def run_cmd(cmd, cwd, timeout, log):
     """Run under a wall-clock cap and a resident-memory cap (ulimit -v counts address space, which CBMC
-    reserves generously; RSS is what matters on a machine without swap). Kills the whole group."""
+    reserves generously; RSS is what matters on a machine without swap). Kills the whole group.
+    Under machine-wide memory pressure the youngest run of this driver gives way (it is re-run later)."""
     t0 = time.time()
     peak = 0
     killed_for_mem = False
+    gave_way = False
     with open(log, "w") as lf:
         p = subprocess.Popen(["bash", "-c", "exec " + cmd], cwd=cwd, env=ENV, stdout=lf,
                              stderr=subprocess.STDOUT, start_new_session=True)
         timed_out = False
+        with ACTIVE_LOCK:
+            ACTIVE[p.pid] = t0
         while True:
             try:
                 rc = p.wait(timeout=3)
@@ -371,7 +385,13 @@ def run_cmd(cmd, cwd, timeout, log):
                 killed_for_mem = True
             if time.time() - t0 > timeout:
                 timed_out = True
-            if killed_for_mem or timed_out:
+            if not (killed_for_mem or timed_out) and mem_available_gb() < LOW_MEM_GB:
+                with ACTIVE_LOCK:
+                    youngest = max(ACTIVE, key=lambda k: ACTIVE[k]) if ACTIVE else None
+                    if youngest == p.pid:
+                        gave_way = True
+                        ACTIVE.pop(p.pid, None)
+            if killed_for_mem or timed_out or gave_way:
                 try:
                     os.killpg(p.pid, signal.SIGKILL)
                 except ProcessLookupError:
@@ -379,11 +399,18 @@ def run_cmd(cmd, cwd, timeout, log):
                 p.wait()
                 rc = -9
                 break
+    with ACTIVE_LOCK:
+        ACTIVE.pop(p.pid, None)
     with open(log, errors="replace") as lf:
         out = lf.read()
     if killed_for_mem:
         out += "\n[driver] killed: resident memory above %d MB\n" % (MEM_KB // 1024)
-    run_cmd.last_peak_kb = peak
+    if gave_way:
+        out += "\n[driver] gave way: machine short of memory\n"
+    elif "appears to have run out of memory" in out and not killed_for_mem and peak < MEM_KB * 0.8:
+        # the kernel's OOM killer took this run although it was below its own cap: machine-wide pressure
+        out += "\n[driver] gave way: killed by the kernel under machine-wide memory pressure\n"
+    out += "\n[driver] peak_rss_kb=%d\n" % peak
     return rc, timed_out, out, time.time() - t0
 
 
@@ -408,7 +435,8 @@ def wait_for_memory(need_gb=16.0, max_wait=3600):
         t0 = time.time()
         while mem_available_gb() < need_gb and time.time() - t0 < max_wait:
             time.sleep(5)
-        time.sleep(random.random())
+        # stagger: give the runs already started time to show their memory demand
+        time.sleep(random.random() + min(10.0, 1.5 * len(ACTIVE)))
 
 
 class Runner:
@@ -441,8 +469,20 @@ class Runner:
         # always on: a harness file may hold stubbed harnesses (inside macros) next to the selected one
         z = " -Z stubbing"
         cmd = "cargo kani --harness %s --exact --target-dir %s %s" % (h.modpath, tdir, z)
+        if os.environ.get("VERIF_TIMEOUT_CAP"):  # timing surveys only
+            h.timeout = min(h.timeout, int(os.environ["VERIF_TIMEOUT_CAP"]))
         rc, timed_out, out, wall = run_cmd(cmd, self.ds, h.timeout, log)
+        tries = 0
+        while "[driver] gave way" in out and tries < 4:
+            # not a verdict: wait until the machine has room (other runs finish), then run again
+            tries += 1
+            time.sleep(20 + 40 * random.random())
+            wait_for_memory(need_gb=24.0)
+            rc, timed_out, out, wall2 = run_cmd(cmd, self.ds, h.timeout, log)
+            wall += wall2
         res = parse_kani(out)
+        pk = re.findall(r"\[driver\] peak_rss_kb=(\d+)", out)
+        res["peak_rss_mb"] = int(pk[-1]) // 1024 if pk else 0
         res.update({"harness": h.name, "rc": rc, "timed_out": timed_out, "wall_s": round(wall, 2), "log": log})
         res["class"], res["why"] = classify(h, res, out)
         if res["class"] == "failed" and not h.witness:
@@ -462,6 +502,8 @@ def classify(h, res, out):
     """held | failed | inconclusive"""
     if res["timed_out"]:
         return "inconclusive", "time-out after %ds" % h.timeout
+    if "[driver] gave way" in out:
+        return "inconclusive", "machine short of memory (other processes); re-run when it is idle"
     if "[driver] killed: resident memory" in out or "Out of memory" in out:
         return "inconclusive", "out of memory (cap %d MB)" % (MEM_KB // 1024)
     if res["verdict"] is None:
@@ -609,6 +651,7 @@ def write_evidence(prop, tier, seed, results, hs, wall, violations, srcdigest, e
             "covers_satisfied": "%d/%d" % (r["covers_sat"], r["covers_total"]),
             "sat_vars": r["vars"], "sat_clauses": r["clauses"],
             "symex_s": round(r["symex_s"], 2), "solver_s": round(r["solver_s"], 2), "wall_s": r["wall_s"],
+            "peak_rss_mb": r.get("peak_rss_mb", 0),
         }
         harness_rows.append(row)
         if r["class"] == "held" and h.nontrivial and nchk > 0 and r["covers_total"] >= 1 \
@@ -746,9 +789,10 @@ def do_check(prop, tier, seed, only, jobs, scratch, ds, srcdigest, hs_all):
             h = futs[fut]
             r = fut.result()
             results.append(r)
-            print("[%s] %-50s %-12s wall=%6.1fs solver=%6.1fs checks=%d covers=%d/%d %s" % (
+            print("[%s] %-50s %-12s wall=%6.1fs solver=%6.1fs checks=%d covers=%d/%d rss=%dMB %s" % (
                 prop, h.name, r["class"], r["wall_s"], r["solver_s"], len(r["checks"]),
-                r["covers_sat"], r["covers_total"], r["why"].splitlines()[0][:160] if r["why"] else ""))
+                r["covers_sat"], r["covers_total"], r.get("peak_rss_mb", 0),
+                r["why"].splitlines()[0][:160] if r["why"] else ""))
             sys.stdout.flush()
     byname = {h.name: h for h in hs}
     violations = 0
@@ -794,7 +838,8 @@ def do_check(prop, tier, seed, only, jobs, scratch, ds, srcdigest, hs_all):
     for k in sorted(set(known_hit)):
         print("KNOWN-FINDING: property=%s %s" % (prop, known_keys[k].get("what", k)))
     wall = time.time() - t0
-    write_evidence(prop, tier, seed, results, hs, wall, violations, srcdigest, BASE_ASSUMPTIONS)
+    if prop != "ALL":  # ALL = timing survey over every harness, not a property check
+        write_evidence(prop, tier, seed, results, hs, wall, violations, srcdigest, BASE_ASSUMPTIONS)
     held = len([r for r in results if r["class"] == "held"])
     print("SUMMARY property=%s tier=%s harnesses=%d held=%d violations=%d inconclusive=%d wall=%.0fs" % (
         prop, tier, len(results), held, violations, inconclusive, wall))
